@@ -437,10 +437,19 @@ def write_ndjson(path, rows):
 
 
 def read_ndjson(path):
+    """records of an ndjson file; a LAST line cut short by a crash of its writer is dropped (the caller sees fewer records than
+    cases and reports the crash); non-finite numbers printed as nan / inf are read as such"""
     out = []
     with open(path) as f:
-        for line in f:
-            line = line.strip()
-            if line:
-                out.append(json.loads(line))
+        lines = [l.strip() for l in f if l.strip()]
+    for i, line in enumerate(lines):
+        try:
+            out.append(json.loads(line))
+        except ValueError:
+            try:
+                out.append(json.loads(re.sub(r"(?<=[:\[,\s])(-?)nan\b", "NaN", re.sub(r"(?<=[:\[,\s])(-?)inf\b", r"\1Infinity", line))))
+            except ValueError:
+                if i == len(lines) - 1:
+                    break
+                raise ModelError("unreadable record %d of %s: %s" % (i + 1, path, line[:200]))
     return out
